@@ -36,7 +36,7 @@ DescFull == [id |-> "c20full", vals0 |-> <<V(1, 10), V(2, 10), V(3, 10), V(4, 10
 \* a chain without transactions and events
 DescBare == [id |-> "c20bare", vals0 |-> <<V(1, 10), V(2, 10), V(3, 10)>>, params0 |-> Params0, kv0 |-> KV0,
              txinfo |-> TxInfo,
-             blocks |-> [h \in 1..4 |-> B(<< >>, << >>, << >>, << >>, << >>)]]
+             blocks |-> Force([h \in 1..4 |-> B(<< >>, << >>, << >>, << >>, << >>)])]
 ChainFull == ModelChain(DescFull)
 ChainBare == ModelChain(DescBare)
 ChainOf(id) == IF id = "c20full" THEN ChainFull ELSE ChainBare
@@ -45,8 +45,7 @@ ASSUME PrintT(<<"desc", DescBare>>)
 ASSUME ChainCoherent(ChainFull) /\ ChainCoherent(ChainBare)
 
 LieArg(C, a) == a.lc = "fresh" /\ (a.h \in LieHeights \/ (a.h = 0 /\ a.lo \in LieHeights))
-OtherHeights(C, a) == LET hs == {h \in 1..C.tip : h # a.h /\ h # a.lo /\ (a.hi - a.lo) + h <= C.tip} IN
-                      IF hs = {} THEN {} ELSE {CHOOSE h \in hs : \A g \in hs : h <= g, CHOOSE h \in hs : \A g \in hs : h >= g}
+OtherHeights(C, a) == {h \in 1..C.tip : h # a.h /\ h # a.lo}
 CasesOf(id) ==
   LET C == ChainOf(id) IN
   UNION {UNION {{[chain |-> id, kind |-> k, a |-> a, f |-> NoLie]}
@@ -57,17 +56,22 @@ CasesOf(id) ==
                 : a \in HonestArgs(C, k)} : k \in Kinds \cap CaseKinds}
 Cases == CasesOf("c20full") \cup CasesOf("c20bare")
 
-VARIABLE cs
-CaseInit == cs \in Cases
-CaseNext == UNCHANGED cs
+\* ph: 0 = the case as enumerated; 1 = the case being judged.  The properties are evaluated on
+\* the successor so that TLC's workers evaluate them in parallel (initial states are processed
+\* by one thread).
+VARIABLES cs, ph
+CaseInit == cs \in Cases /\ ph = 0
+CaseNext == ph = 0 /\ ph' = 1 /\ UNCHANGED cs
 
 InStatement == cs.kind \in StatementKinds
-RelaySound        == InStatement => RelaySoundCase(ChainOf(cs.chain), cs)
-RelaySoundStrict  == InStatement => RelaySoundStrictCase(ChainOf(cs.chain), cs)
-RelayComplete     == InStatement => RelayCompleteCase(ChainOf(cs.chain), cs)
-UncommittedOnly   == UncommittedOnlyCase(ChainOf(cs.chain), cs)
+Judged(prop) == ph = 1 => prop
+RelaySound        == Judged(InStatement => RelaySoundCase(ChainOf(cs.chain), cs))
+RelaySoundStrict  == Judged(InStatement => RelaySoundStrictCase(ChainOf(cs.chain), cs))
+RelayComplete     == Judged(InStatement => RelayCompleteCase(ChainOf(cs.chain), cs))
+UncommittedOnly   == Judged(UncommittedOnlyCase(ChainOf(cs.chain), cs))
+AllProps          == Judged(CaseOK(ChainOf(cs.chain), cs))
 \* the two kinds outside the statement's list (consensus parameters, block metas)
-ExtraSound        == ~InStatement => RelaySoundCase(ChainOf(cs.chain), cs)
-ExtraComplete     == ~InStatement => RelayCompleteCase(ChainOf(cs.chain), cs)
+ExtraSound        == Judged(~InStatement => RelaySoundCase(ChainOf(cs.chain), cs))
+ExtraComplete     == Judged(~InStatement => RelayCompleteCase(ChainOf(cs.chain), cs))
 \* a lie that changes a committed field of a statement kind is never relayed ... implied by the above
 =============================================================================
